@@ -148,6 +148,12 @@ pub fn run(req: &RunRequest) -> Value {
             cluster.add_node("dc1", "r1", 0, vec![(i as i64) * 1000 - 2500]);
         }
         client::standard_catalog(&mut cluster, Strategy::Simple(1), false);
+        // 1 in 3 runs the nodes mark the prepared INSERT as a conditional statement (LWT mark
+        // in its prepared metadata): the timestamp rules are the same for it.
+        if tape::chance("c18:lwt_mark", 1, 3) {
+            cluster.features.lwt_ext = true;
+            cluster.features.lwt_marked_shapes = vec![client::Q_PREPARED_INSERT.to_string()];
+        }
         cluster.think_min = 0;
         cluster.think_max = 3 * MS;
         let net = NetCfg {
@@ -210,29 +216,33 @@ async fn main(plan: Plan) -> Outcome {
                     .into_handle(),
             );
         match b.build().await {
-            Ok(s) => Arc::new(s),
+            // Wrapped in a CachingSession (some writes go through it, the others through
+            // the session inside it - one generator either way).
+            Ok(s) => Arc::new(scylla::client::caching_session::CachingSession::<std::collections::hash_map::RandomState>::from(s, 8)),
             Err(e) => {
                 out.inconclusive = Some(format!("session: {e}"));
                 return out;
             }
         }
     };
-    let Ok(ins) = session.prepare(client::Q_PREPARED_INSERT).await else {
+    let caching = session.clone();
+    let Ok(ins) = session.get_session().prepare(client::Q_PREPARED_INSERT).await else {
         out.inconclusive = Some("prepare failed".into());
         return out;
     };
     let ins = Arc::new(ins);
     let mut handles = Vec::new();
     for t in 0..plan.tasks {
-        let session = session.clone();
+        let caching = caching.clone();
         let ins = ins.clone();
-        let kinds: Vec<u64> = (0..plan.per_task).map(|_| tape::choose("c18:kind", 7)).collect();
+        let kinds: Vec<u64> = (0..plan.per_task).map(|_| tape::choose("c18:kind", 9)).collect();
         let explicit: Vec<bool> = (0..plan.per_task).map(|_| tape::chance("c18:explicit", 1, 4)).collect();
         let ts_kind: Vec<u64> = (0..plan.per_task).map(|_| tape::weighted("c18:explicit_value", &[5, 2, 1, 1]) as u64).collect();
         let batch_len: Vec<usize> = (0..plan.per_task).map(|_| 1 + tape::weighted("c18:batch_len", &[2, 3, 1]) as usize).collect();
         let gaps: Vec<u64> = (0..plan.per_task).map(|_| tape::choose("c18:gap", 3)).collect();
         let per = plan.per_task;
         handles.push(tokio::spawn(async move {
+            let session = caching.get_session();
             for k in 0..per {
                 let m = ((t * 100 + k) as u64 + 1) * 16 + if explicit[k] { F_EXPLICIT + 2 * ts_kind[k] } else { 0 };
                 let ts = if explicit[k] { Some(explicit_ts(m)) } else { None };
@@ -270,6 +280,26 @@ async fn main(plan: Plan) -> Outcome {
                             if let Ok(mut rs) = p.rows_stream::<scylla::value::Row>() {
                                 while rs.next().await.is_some() {}
                             }
+                        }
+                    }
+                    7 | 8 => {
+                        // Through the CachingSession: the statement text is prepared once
+                        // and cached; every execution applies the CALLER's statement
+                        // options (here: its timestamp, or none) to the cached statement.
+                        let mut st = Statement::new(client::Q_PREPARED_INSERT);
+                        st.set_is_idempotent(true);
+                        st.set_timestamp(ts);
+                        if kinds[k] == 7 {
+                            let _ = caching.execute_unpaged(st, (k as i64, m as i64)).await;
+                        } else {
+                            let mut b = Batch::default();
+                            for _ in 0..batch_len[k] {
+                                b.append_statement(client::Q_PREPARED_INSERT);
+                            }
+                            b.set_is_idempotent(true);
+                            b.set_timestamp(ts);
+                            let values: Vec<(i64, i64)> = (0..batch_len[k]).map(|i| (1 + i as i64, m as i64)).collect();
+                            let _ = caching.batch(&b, values).await;
                         }
                     }
                     6 => {
